@@ -348,7 +348,7 @@ int main(int argc, char **argv) {
   mc::alloc_env().cap = size_t(64) << 20;
   build_corpus();
   for (auto &e : g_corpus) g_max_len = std::max(g_max_len, e.bytes.size());
-  g_guard.init(g_max_len + 64);
+  g_guard.init(g_max_len + (size_t(1) << 20) + 4096);
   fprintf(stderr, "[%s] corpus: %zu generators, %zu distinct streams (%zu files), sub-corpus %zu, tiny %zu, seamable %zu\n", R.property.c_str(),
           g_gens.size(), g_corpus.size(), g_files.size(), g_sub.size(), g_tiny.size(), g_seamable.size());
   R.extra["corpus_streams"] = std::to_string(g_corpus.size());
@@ -489,6 +489,27 @@ int main(int argc, char **argv) {
   };
   add_space(R, "varint_sub", sub_and_files, [](const Entry &e) { return (uint64_t)e.bytes.size() * 8; }, varint, mode0, true, false);
   add_space(R, "varint_all", all_small, [](const Entry &e) { return (uint64_t)e.bytes.size() * 8; }, varint, modes_q, false, true);
+  // a very long run of varint continuation bytes at every offset: depth limits that are counted wrongly only show with
+  // hundreds of thousands of bytes (one stack frame each)
+  {
+    static const size_t kRun = size_t(1) << 20;
+    Mutator longrun = [](const Entry &e, uint64_t k, Bytes *out, std::string *op) {
+      const size_t i = k / 2;
+      const uint8_t fill = (k % 2) ? 0x80 : 0xff;
+      out->assign(e.bytes.begin(), e.bytes.begin() + i);
+      out->insert(out->end(), kRun, fill);
+      out->insert(out->end(), e.bytes.begin() + i, e.bytes.end());
+      *op = "insert_run(" + std::to_string(i) + ", 2^20 x " + std::to_string(fill) + ")";
+      return true;
+    };
+    std::vector<int> carriers;
+    std::set<int> seen;
+    for (int i : g_sub) {
+      const int key = g_corpus[i].bytes[7] * 16 + g_corpus[i].bytes[8];
+      if (g_corpus[i].bytes.size() <= 200 && seen.insert(key * 8 + (int)seen.size() % 2).second && carriers.size() < 8) carriers.push_back(i);
+    }
+    add_space(R, "long_varint_run", carriers, [](const Entry &e) { return (uint64_t)e.bytes.size() * 2; }, longrun, mode0, true, true);
+  }
   // version rewrites: first carrier of each (geometry type, method)
   {
     std::vector<int> four;
